@@ -18,6 +18,38 @@ CHECKS = {
              "checkers, and every get/contains_key/size_of is compared with the Spec.",
         note=NOTE_TB + "Bloom filter = arbitrary no-false-negative predicate here (byte level in C12); sequential histories; table contents are taken from the crate's own iterators.",
         design="7/C01", technique="Coq proof (refinement of the read path to an ordered-map spec, stream invariants) + extracted-checker correspondence on full state dumps"),
+    "C02": dict(
+        text="Proof over the abstract machine of the version history (shared active memtable, in-place rotation, arbitrary version upgrades, history GC): for every protocol-obeying run a snapshot S keeps resolving to a superversion with the same tables and the same memtable entries below S, so every key and every scan reads the same (snapshot_stable, maintenance_keeps, snapshot_never_panics; refutation for watermarks above S). Real executions hold 1-4 snapshots; after every later operation the superversion each snapshot resolves to is dumped, certified (check_inv_sv) and its content compared with the write history at S for all keys; reads at held snapshots are compared with the Spec.",
+        note=NOTE_TB + "Usage protocol assumed as the property states (seqnos from the shared counter, watermarks <= live snapshots); clear_active_memtable (recovery-only) is outside the alphabet; sequential histories.",
+        design="7/C02", technique="Coq proof (invariant over operation lists of the version-history machine) + snapshot certificates on real dumps"),
+    "C03": dict(
+        text="Proof that the crate's scan pipeline (bound widening, run culling via range_overlap_indexes, seqno filter, double-ended k-way Merger with lazy init, MvccStream with DoubleEndedPeekable, tombstone filter) yields, for every structurally sound superversion, all bounds, all snapshots and EVERY next/next_back interleaving, exactly the Spec's live pairs with deque semantics (range_exact); prefix_to_range exact incl. 0xFF carry; first/last/len/is_empty and overlay corollaries. Real scans with generated bounds and pull patterns are compared with the Spec and with the extracted pipeline run on the dumped state.",
+        note=NOTE_TB + "Tables/memtables are sorted entry lists at this level (block cursors are C12); I/O errors inside iterators not modelled.",
+        design="7/C03", technique="Coq proof (refinement of the iterator stack to a deque over the ordered-map spec) + differential scans"),
+    "C04": dict(
+        text="Proof of the byte-exact version-file codec round trip for every encodable version (and the sharp refutation at 256 runs = finding F4, fixed) and that equal content gives equal reads; every real reopen is checked by comparing the full dump before and after (layout, table ids, global seqnos, entries, marks), continuing the history afterwards (id allocation) and re-certifying.",
+        note=NOTE_TB + "sfa container framing and checksums are trusted here (C10); blob/gc sections are order-insensitive maps.",
+        design="7/C04", technique="Coq proof (codec round trip) + before/after-reopen dump comparison"),
+    "C07": dict(
+        text="Proofs that the decidable invariant check_inv_sv means exactly the property's structure (disjoint ascending runs, one table per key per run, recency order across containers, exact metadata, unique ids), that optimize_runs and with_new_l0_run/with_dropped/with_merge/with_moved preserve it for all inputs under decidable placement conditions, and the version-file round trip; on every real run check_inv_sv is evaluated on EVERY published superversion, the model's transformations must reproduce the real layouts, and the placement conditions are evaluated on every real step.",
+        note=NOTE_TB + "File existence is checked from the directory listing in C20; manifest bytes vs model decoder in C04.",
+        design="7/C07", technique="Coq proof (invariant preservation per transformation) + certificate on every dumped version"),
+    "C13": dict(
+        text="Proof that for a key whose versions strictly alternate between weak tombstones and values the compaction stream only removes adjacent (weak tombstone, value) pairs, keeps the alternation, keeps a live newest value and never exposes an older value, composed with arbitrary deeper containers (cstream_weak_top, cstream_weak_view_with_deeper); refutation of the shipped 3.1.9 stream (finding F3, fixed). Real disciplined histories are run with all maintenance interleavings and compared with the Spec at every snapshot.",
+        note=NOTE_TB + "Discipline enforced by the generator and the shrinker; undisciplined use resurrects by design (proved as refutation).",
+        design="7/C13", technique="Coq proof (stream invariant under the single-delete discipline) + disciplined differential histories"),
+    "C14": dict(
+        text="Proof that an ingested table (global seqno g) is invisible to every S <= g and fully visible to every S > g (all entries at once), that placing it as the first L0 run keeps the version sound when g exceeds all earlier seqnos, and that earlier snapshots are untouched; real histories interleave ingestions with writes, snapshots, flushes, compactions and reopen, with the batch entered into the Spec as |batch| writes at g.",
+        note=NOTE_TB + "Concurrent writers during finish() are C06 (see S10).",
+        design="7/C14", technique="Coq proof (seqno-shift visibility + version invariant) + differential histories"),
+    "C15": dict(
+        text="Proof that the DropRange containment test is exact (all nine bound kinds), so every removed table lies inside R; empty/inverted ranges are no-ops; removal preserves the version invariant and reads of keys not in removed tables; earlier snapshots untouched (C02 machine). Real histories use bounds generated relative to table boundaries; every removed table's keys are checked to lie inside R, keys outside R and held snapshots are re-certified against the unmodified history.",
+        note=NOTE_TB + "Reads of keys inside R after the drop are unspecified by the property and rebased on the physical content.",
+        design="7/C15", technique="Coq proof (bounds algebra + invariant closure under removal) + differential histories"),
+    "C18": dict(
+        text="Proof that get_highest_persisted_seqno (max over tables of stored upper bound + global seqno) equals the maximum effective seqno actually stored, likewise for memtables and overall, for every structurally sound superversion; on every real dump the three getters are compared with the brute-force maxima and across reopen.",
+        note=NOTE_TB + "Quiescent states (concurrent lag is C06).",
+        design="7/C18", technique="Coq proof (metadata exactness + max algebra) + getter-vs-bruteforce on every dump"),
 }
 
 NOT_APPLICABLE = []
